@@ -2,6 +2,7 @@
 import itertools
 import curtsies.fmtfuncs as ff
 from curtsies.formatstring import fmtstr, parse_args, FmtStr
+import sgrterm
 import wire
 from wire import mk_fmt, cells
 from props.common import chunks_for, reply_fmt, guarded, canon_cells, PALETTE
@@ -16,6 +17,9 @@ RULE = ("exhaustive: every single attribute (8 fg, 8 bg, 6 styles True/False) in
         "plain str, no runs); a catalogue of malformed specifications (unknown names/keys, wrong type, out of range, "
         "duplicates, contradictions) through fmtstr, parse_args and the fmtfuncs; copy_with_new_atts / "
         "new_with_atts_removed / copy_with_new_str / shared_atts over layouts x attribute sets; seeded random specs. "
+        "every valid apply/nest/attribute-op case is run twice - on a fresh operand and on one that was rendered, "
+        "measured, hashed and compared first - and the result is also judged by what str(result) displays (independent "
+        "SGR reader) and by ==/hash/.s/len against a FmtStr freshly built from its runs. "
         "non-trivial = distinct cases that name at least one attribute, raise, or remove/replace something")
 ASSUMPTIONS = ["texts contain no ESC (a str argument of fmtstr would be parsed for escape sequences; C05/C17)",
                "keyword names are distinct (a repeated keyword is a TypeError at the call site, before parse_args runs)",
@@ -276,8 +280,20 @@ def mk_cases(ctx):
 
 # ---- real code ---------------------------------------------------------------------------------------------
 
-def real_f(f):
-    return f if isinstance(f, str) else mk_fmt(f)
+def observe(x):
+    """look at a FmtStr the way a program does before restyling it (fills every memo the object has)"""
+    if isinstance(x, FmtStr):
+        str(x), len(x), x.s, hash(x), x == x
+        try:
+            x.width
+        except Exception:  # noqa: BLE001 - width of unusual characters is C10's business
+            pass
+    return x
+
+
+def real_f(f, obs=False):
+    r = f if isinstance(f, str) else mk_fmt(f)
+    return observe(r) if obs else r
 
 
 def model_f(f):
@@ -293,13 +309,15 @@ def call_spec(f, sp):
 
 def run_impl(c):
     op = c["op"]
+    obs = bool(c.get("observe"))
     if op == "apply":
-        return call_spec(real_f(c["f"]), c["spec"])
+        return call_spec(real_f(c["f"], obs), c["spec"])
     if op == "nest":
-        return call_spec(call_spec(real_f(c["f"]), c["specs"][0]), c["specs"][1])
+        mid = call_spec(real_f(c["f"], obs), c["specs"][0])
+        return call_spec(observe(mid) if obs else mid, c["specs"][1])
     if op == "parse":
         return dict(parse_args(tuple(mkval(v) for v in c["pos"]), {k: mkval(v) for k, v in c["kw"]}))
-    f = mk_fmt(c["f"])
+    f = real_f(c["f"], obs)
     if op == "shared":
         return dict(f.shared_atts)
     if op == "cwna":
@@ -376,6 +394,20 @@ LEVEL_NOTE = ("PROVED in Lean for all inputs of the model: parse_args returns ex
               "hand-written model and `denote`, extract.py, the wire codec; CPython is modelled not verified")
 
 
+def shown(r, exp):
+    """the result judged through what it DISPLAYS and how it compares: str(r) read by the independent SGR reader must
+    show every character with exactly the expected effective attributes, and ==, hash, .s, len must be those of a
+    FmtStr freshly built from the same runs (nothing stale may be carried over from the operand)"""
+    want = [(ch, tuple((k, v) for k, v in a if v is not False)) for ch, a in exp]
+    got, final, ctls, mode = sgrterm.display(str(r))
+    if got != want or final != () or ctls or mode != "ground":
+        return "str(result) displays %r, expected %r" % (got, want)
+    fresh = mk_fmt(wire.fmt_chunks(r))
+    if not (r == fresh) or hash(r) != hash(fresh) or r.s != fresh.s or len(r) != len(fresh) or str(r) != str(fresh):
+        return "result differs from a FmtStr freshly built from its own runs (==/hash/str/.s/len): %r vs %r" % (str(r), str(fresh))
+    return None
+
+
 def _oracle(c):
     op = c["op"]
     if c.get("valid") is None and op == "parse":
@@ -408,17 +440,17 @@ def _oracle(c):
         got = cells(r)
         if got != exp:
             return "formatting applied differs from the named attributes: got %r expected %r" % (got, exp)
-        return None
+        return shown(r, exp)
     before = wire.cells_of_chunks(c["f"])
     if op == "cwna":
         if cells(r) != override(before, c["atts"]):
             return "copy_with_new_atts: got %r expected %r" % (cells(r), override(before, c["atts"]))
-        return None
+        return shown(r, override(before, c["atts"]))
     if op == "nwar":
         exp = [(ch, tuple((k, v) for k, v in a if k not in c["names"])) for ch, a in before]
         if cells(r) != exp:
             return "new_with_atts_removed: got %r expected %r" % (cells(r), exp)
-        return None
+        return shown(r, exp)
     if op == "cwns":
         attsets = {a for _, a in before}      # per CHARACTER (empty runs are not formatting anything)
         if len(attsets) == 1:                 # uniformly formatted string: formatting kept, text swapped
@@ -493,6 +525,13 @@ def check(ctx):
         ctx.count(c, nontrivial=nontrivial(c), tag=tag(c))
         if w:
             ctx.violation(w, c, footprint(c, w))
+        if c["op"] in ("apply", "nest", "cwna", "nwar", "cwns") and c.get("valid", True):
+            # the same call on an operand that has been rendered / measured / compared before
+            c2 = dict(c, observe=True)
+            w = oracle(c2)
+            ctx.count(c2, nontrivial=nontrivial(c), tag=tag(c) + "/observed-first")
+            if w:
+                ctx.violation(w, c2, footprint(c2, w))
 
 
 def search(ctx):
